@@ -1291,6 +1291,10 @@ func (s *SelectStatement) RewriteFields(m FieldMapper) (*SelectStatement, error)
 		}
 		if !hasDimensionWildcard {
 			for name := range dimensionSet {
+				// A subquery may select a tag it also groups by: list it once.
+				if typ, ok := fieldSet[name]; ok && typ == Tag {
+					continue
+				}
 				fields = append(fields, VarRef{Val: name, Type: Tag})
 			}
 			dimensionSet = nil
